@@ -13,6 +13,21 @@ CHECKS = {
     'C01': ('exploration', 'runtime monitor: generator-carried ground-truth OIDs vs JSON / executed pysnmp / MibStatus of real compile() runs',
             'Held on K generated module sets (counts in evidence): every OID-bearing node of every set is compared in three outputs of the real compiler against the OID the generator attached when it built the tree. Exploration, not proof: reach comes from seeded diversity (tree shapes, forward/imported parents, spellings, kinds).',
             'Trusted: the generator\'s own OID arithmetic (parent + arcs), hand-written base-module fixtures, pysnmp 7.1.29 executing the generated Python, json.loads.', '5/C01'),
+    'C07': ('fault_enumeration', 'runtime monitor: offline trace checker (invariants I1-I7 + executable orchestration model) over the component-boundary event log of real compile() runs with injected faults',
+            'Every single-fault placement on 9 canonical import graphs x 12 option sets is enumerated, then random multi-fault scenarios; each run of the real MibCompiler over recording doubles is judged by trace invariants and a reference model of the documented orchestration. Fault enumeration over the component boundary, not over lines inside components.',
+            'Trusted: the doubles raise only package exceptions; the 90-line reference model of the documented orchestration; real parser / JsonCodeGen / borrower classes are used unmodified.', '5/C07'),
+    'C08': ('exploration', 'runtime monitor: offline checker of the fetch/parse event log (closure, insertion-order fetch sequences, first-holder text identity, logical progress bound)',
+            'Random import digraphs (cycles, self loops, multi-module files) x 1-4 sources holding tagged copies; the trace of each real compile() is checked offline. Termination is decided on logical counters, never on wall-clock.',
+            'Trusted: source/parser/writer doubles record faithfully; unique per-source tags identify which copy was compiled.', '5/C08'),
+    'C09': ('fault_enumeration', 'runtime monitor: trace checker over writer events and statuses under enumerated failure placements',
+            'Every placement of each failure kind named by the property on every module of the canonical graphs x option sets x borrowers, plus random multi-failure scenarios; any putData event or non-unprocessed built module while a failure remains is a violation.',
+            'Trusted: as C07; writer failures are deliberately out of scope (not in the statement).', '5/C09'),
+    'C10': ('exploration', 'runtime monitor: searcher-event trace checker (part A) + reference predicate over generated directories for the real file searchers (part B)',
+            'Part A judges consultation order, untouched status and absence of generation from the trace; part B compares the real AnyFile/PyFile/PyPackage/Stub searchers with a 6-line predicate over a generated temp directory on a grid of mtimes around equality.',
+            'Trusted: os.utime sets the mtimes the searchers read; age-based doubles honour rebuild like the real ones.', '5/C10'),
+    'C19': ('fault_enumeration', 'runtime monitor: borrow-event trace checker + reference extension filter over real borrower/reader directories',
+            'Failure placements x borrower lists (flavours, holdings, errors) x noDeps/genTexts/ignoreErrors/searchers; the trace shows who was offered to which borrower in which order and what was written; part B drives the real PyFileBorrower/AnyFileBorrower over real directories.',
+            'Trusted: as C07; real AnyFileBorrower/PyFileBorrower wrap the recording reader so the real flavour check runs.', '5/C19'),
 }
 PENDING_REASON = 'check not built yet in this session (work in progress; see DESIGN.md section 5 for the planned monitor)'
 
